@@ -25,7 +25,7 @@ CONFIGS = {
                  CONFIG_INITIAL_FETCH_TABLE_SIZE=1, CONFIG_MAX_EPOLL_EVENTS=2),
     "one": dict(CONFIG_MAX_EPOLL_EVENTS=1),
     "wide": dict(CONFIG_MAX_EPOLL_EVENTS=64),
-    "lowheap": dict(CONFIG_MAX_HEAPSIZE_IN_KBYTE=96),
+    "lowheap": dict(CONFIG_MAX_HEAPSIZE_IN_KBYTE=256),   # the idle daemon needs 192 KiB (path index)
     "smallbuf": dict(CONFIG_MAX_WRITE_BUFFER_SIZE=256, CONFIG_MAX_MESSAGE_SIZE=128),
     "localadd": dict(CONFIG_ALLOW_ADD_ONLY_FROM_LOCALHOST="true"),
 }
